@@ -330,7 +330,9 @@ class Gen:
             ref = newref()
             used.append(ref)
             form = self.draw(st.integers(0, 13))
-            sign = "-" if self.chance(30) else "+"
+            # a subtracted term in the LHS variable is the trigger of a
+            # recorded finding: keep it rare so it cannot mask others
+            sign = "-" if self.chance(8 if ref == lhs else 25) else "+"
             if form <= 2:
                 txt = ref
             elif form == 3:
@@ -686,7 +688,7 @@ class Gen:
             return lhs
 
         def mkstencil():
-            if not self.chance(30):
+            if not self.chance(50):
                 return lhs
             ref = self.sec_ref(var, low, high, stride, scope, None)
             if ref is None or lhs == var.name:
